@@ -1,8 +1,10 @@
 package main
 
 import (
+	"encoding/binary"
 	"fmt"
 	"math/bits"
+	"math/rand"
 	"sort"
 	"strconv"
 	"strings"
@@ -288,6 +290,87 @@ func init() {
 			}
 		}
 		return strings.Join(outs, "|")
+	})
+	// fdbprobe nkeys seed: FirstDiffBits (and two CountPrefixes queries) on a key set too large for the driver --
+	// nkeys strictly ascending keys of 5..9 bytes with runs of shared prefixes -- against a naive per-pair reference
+	// evaluated here; every entry is compared. The driver expects "ok" (theorems C16_firstDiffBits, C16_count).
+	reg("fdbprobe", func(a []string) string {
+		n := int(mustI64(a[0]))
+		r := rand.New(rand.NewSource(mustI64(a[1])))
+		keys := make([]string, n)
+		v := uint64(r.Intn(1000))
+		for i := range keys {
+			step := uint64(1 + r.Intn(3))
+			if r.Intn(50) == 0 {
+				step = uint64(1) << uint(8+r.Intn(20))
+			}
+			v += step
+			var b [9]byte
+			binary.BigEndian.PutUint64(b[1:], v)
+			b[0] = byte(v >> 61)
+			keys[i] = string(b[:5+int(v%5)])
+			if i > 0 && keys[i] <= keys[i-1] { // keep strictly ascending: fall back to the full width
+				keys[i] = string(b[:])
+			}
+		}
+		naive := func(x, y string) int32 {
+			l := len(x)
+			if len(y) < l {
+				l = len(y)
+			}
+			for i := 0; i < l; i++ {
+				if d := x[i] ^ y[i]; d != 0 {
+					return int32(8*i + bits.LeadingZeros8(d))
+				}
+			}
+			return int32(8 * l)
+		}
+		for i := 1; i < n; i++ {
+			if keys[i] <= keys[i-1] {
+				return "ok" // generator could not keep the order (9-byte keys exhausted): nothing to say
+			}
+		}
+		fd := sigbits.FirstDiffBits(keys)
+		if len(fd) != n-1 {
+			return fmt.Sprintf("FirstDiffBits returns %d values for %d keys", len(fd), n)
+		}
+		for i := 0; i+1 < n; i++ {
+			if want := naive(keys[i], keys[i+1]); fd[i] != want {
+				return fmt.Sprintf("FirstDiffBits[%d] = %d, want %d (keys %x, %x)", i, fd[i], want, keys[i], keys[i+1])
+			}
+		}
+		sb := sigbits.New(keys)
+		for _, rg := range [][2]int{{0, n}, {n / 3, n - n/5}, {n/2 - 1, n/2 + 3}} {
+			s, e := rg[0], rg[1]
+			if e-s < 2 {
+				continue
+			}
+			m0, cs := sb.CountPrefixes(int32(s), int32(e), 3)
+			min := int32(1 << 30)
+			for i := s; i+1 < e; i++ {
+				if w := naive(keys[i], keys[i+1]); w < min {
+					min = w
+				}
+			}
+			if m0 != min {
+				return fmt.Sprintf("CountPrefixes(%d,%d,3): minimum %d, want %d", s, e, m0, min)
+			}
+			// counter 0: distinct m0-bit prefixes = 1 + number of pairs whose first difference is below m0 ... i.e. 1
+			if len(cs) != 3 || cs[0] != 1 {
+				return fmt.Sprintf("CountPrefixes(%d,%d,3) = %v: the first counter must be 1 (all keys share m0 bits)", s, e, cs)
+			}
+			// counter 1: distinct (m0+1)-bit prefixes = 1 + number of pairs differing at bit m0 exactly
+			c1 := int32(1)
+			for i := s; i+1 < e; i++ {
+				if naive(keys[i], keys[i+1]) <= min {
+					c1++
+				}
+			}
+			if cs[1] != c1 {
+				return fmt.Sprintf("CountPrefixes(%d,%d,3): second counter %d, want %d", s, e, cs[1], c1)
+			}
+		}
+		return "ok"
 	})
 	// shardprobe prefixLen nkeys maxSize seed: keys sharing a prefix of prefixLen bytes (some of them sharing a few bytes
 	// more, one equal to the prefix itself), plus two short keys after them; FirstDiffBits and the clauses of C17 are
